@@ -88,10 +88,17 @@ var sh struct {
 	siteEnabled [maxSites]bool
 	seq         int64 // global event sequence number
 	progress    int64 // watchdog heartbeat
+	quiet       int   // >0: rux-side yield sites are ignored (the running task walks a Go map)
 }
 
 //go:norace
-func shSetActive(a bool) { sh.active = a; sh.cur = -1 }
+func shQuiet(d int) { sh.quiet += d }
+
+//go:norace
+func shIsQuiet() bool { return sh.quiet > 0 }
+
+//go:norace
+func shSetActive(a bool) { sh.active = a; sh.cur = -1; sh.quiet = 0 }
 
 //go:norace
 func shSetCur(t int) { sh.cur = t }
